@@ -224,7 +224,7 @@ Lemma resolve_winv body : forall st st' r, WInv st -> resolve st body = (st', r)
 Proof.
   induction body as [|[slot f] rest IH]; intros st st' r H; cbn [resolve].
   - intro E; inversion E; subst. split; [exact H | split; reflexivity].
-  - destruct (slot_master st slot) as [addr|]; [|intro E; inversion E; subst; split; [exact H | split; reflexivity]].
+  - destruct f as [addr|]; [|intro E; inversion E; subst; split; [exact H | split; reflexivity]].
     destruct (find_pool st addr) as [p|]; [|intro E; inversion E; subst; split; [exact H | split; reflexivity]].
     destruct (pool_get st p) as [st1 [s|]] eqn:Eg; destruct (pool_get_winv _ _ _ _ H Eg) as (A & B1 & B2).
     + destruct (resolve st1 rest) as [st2 [l|e]] eqn:Er; destruct (IH _ _ _ A Er) as (A2 & C1 & C2);
@@ -250,7 +250,7 @@ Proof.
   - destruct (cf_password (cfg st)); [eapply WInv_wext; [apply wext_local_reply | exact H]|].
     destruct (cm_body m) as [|[s0 f0] body]; [exact H|].
     destruct (beqb _ _); (eapply WInv_wext; [apply wext_local_reply | exact H]).
-  - destruct (resolve st (by_slot (cm_body m))) as [st1 [targets|e]] eqn:Er.
+  - destruct (resolve st (route_plan st (cm_type m) (by_slot (cm_body m)))) as [st1 [targets|e]] eqn:Er.
     2:{ eapply WInv_wext; [apply wext_local_reply | exact H]. }
     destruct (resolve_winv _ _ _ _ H Er) as (A & _).
     match goal with |- WInv (match lookup c (clients ?x) with _ => _ end) => set (st3 := x) end.
@@ -439,7 +439,7 @@ Qed.
 
 Theorem step_winv st e st' : WInv st -> step st e = ROk st' -> WInv st'.
 Proof.
-  intros H. destruct e as [c adm|c b totals|order|s b|c|s| |s|nodes newslots]; cbn [step].
+  intros H. destruct e as [c adm|c b totals|order|s b|c|s| |s|nodes newslots|ch]; cbn [step].
   - destruct (lookup c (clients st)); intro E; apply ROk_inj in E; subst st'; exact H.
   - intro E; apply ROk_inj in E; subst st'. apply ensure_dials_winv. unfold client_data.
     destruct (lookup c (clients st)) as [cl|]; [|exact H].
@@ -453,6 +453,7 @@ Proof.
     eapply WInv_wext; [eapply wext_trans; [apply wext_expire | apply wext_set_inflight] | exact H].
   - destruct (find_pool st s) as [p|]; [|intro E; apply ROk_inj in E; subst st'; exact H].
     destruct (pool_get st p) as [st1 [s1|]] eqn:Eg; destruct (pool_get_winv _ _ _ _ H Eg) as (A & _); intro E; apply ROk_inj in E; subst st'; exact A.
+  - intro E; apply ROk_inj in E; subst st'. eapply WInv_wext; [apply wext_same_msgs; reflexivity | exact H].
   - intro E; apply ROk_inj in E; subst st'. eapply WInv_wext; [apply wext_same_msgs; reflexivity | exact H].
 Qed.
 
